@@ -5,6 +5,7 @@ package main
 import (
 	"go/token"
 	"go/types"
+	"strings"
 
 	"golang.org/x/tools/go/ssa"
 )
@@ -75,22 +76,79 @@ func c08Rules(c *Ctx) {
 			c.Check(g && okTest, rule, fn, "sticky:assign-eligible", u.Instr(), "a partition is assigned to a member only if it is among that member's potential partitions", "assignPartition can give a partition to a member that is not eligible for it (not subscribed to the topic)", path)
 		}
 	}
-	if fn := c.NeedFn(rule, "stickyBalanceStrategy.reassignPartitionToNewConsumer"); fn != nil {
+	// every move of a partition to another member — a call of reassignPartition / processPartitionMovement,
+	// wherever it is — names a member that is eligible for the partition and still takes part in the
+	// reassignment (members set aside as fixed are deleted from the working assignment and written back at
+	// the end: a partition moved to one of them is lost)
+	movers := map[string]int{"stickyBalanceStrategy.reassignPartition": 5, "stickyBalanceStrategy.processPartitionMovement": 2}
+	nMoves := 0
+	for _, fn := range p.Fns {
+		if fn.Pkg != p.Sarama {
+			continue
+		}
 		fi := Info(fn)
-		// the move itself: through reassignPartition, or directly through processPartitionMovement
-		cs := append(fi.Find(p.CallTo("stickyBalanceStrategy.reassignPartition")), fi.Find(p.CallTo("stickyBalanceStrategy.processPartitionMovement"))...)
-		if len(cs) == 0 {
-			c.Unresolved(rule, "reassignPartition / processPartitionMovement call in reassignPartitionToNewConsumer")
-		}
-		for _, s := range cs {
-			l := fi.InnermostLoop(itemBlock(s))
-			reg := WholeFn(fn)
-			if l != nil {
-				reg = fi.Iteration(l)
+		for callee, argIdx := range movers {
+			for _, s := range fi.Find(p.CallTo(callee)) {
+				a := callArgs(s)
+				if argIdx >= len(a) {
+					continue
+				}
+				target := a[argIdx]
+				if _, isMover := movers[p.Name(fn)]; isMover && paramIndexOf(fn, target) >= 0 {
+					continue // the wrapper hands its own parameter on; its callers are checked
+				}
+				nMoves++
+				l := fi.InnermostLoop(itemBlock(s))
+				reg := WholeFn(fn)
+				if l != nil {
+					reg = fi.Iteration(l)
+				}
+				// (i) eligible: memberAssignmentsIncludeTopicPartition(potential[target], partition) holds
+				eligible := func(v ssa.Value) bool {
+					if !incl(v) {
+						return false
+					}
+					cl, ok := strip(v).(*ssa.Call)
+					if !ok || len(cl.Call.Args) < 2 {
+						return false
+					}
+					lk, ok := strip(cl.Call.Args[0]).(*ssa.Lookup)
+					return ok && samePath(lk.Index, target)
+				}
+				g, path := reg.Guarded(s, Truth{eligible, true})
+				c.Check(g, rule, fn, "sticky:move-target-eligible:"+shortCallee(callee), s.Instr(), "a partition moves to another member only if that member is eligible for it (memberAssignmentsIncludeTopicPartition of that member's potential partitions)",
+					"a partition can be moved to a member that is not eligible for it (for instance the previous owner named in stale user data, which no longer subscribes to the topic)", path)
+				// (ii) participating: the target is an element of the sorted list of participating members, or
+				// was looked up (comma-ok) in the working assignment
+				participating := false
+				if sl, _, isElem := rangeElem(fi, target); isElem {
+					if pr := paramOfCell(canon(sl)); pr != nil && pr.Name() == "sortedCurrentSubscriptions" {
+						participating = true
+					}
+				}
+				var path2 []*ssa.BasicBlock
+				if !participating {
+					inWorking := func(v ssa.Value) bool {
+						ex, ok := v.(*ssa.Extract)
+						if !ok || ex.Index != 1 {
+							return false
+						}
+						lk, isL := ex.Tuple.(*ssa.Lookup)
+						if !isL || !samePath(lk.Index, target) {
+							return false
+						}
+						pr := paramOfCell(canon(lk.X))
+						return pr != nil && pr.Name() == "currentAssignment"
+					}
+					participating, path2 = reg.Guarded(s, Truth{inWorking, true})
+				}
+				c.Check(participating, rule, fn, "sticky:move-target-participates:"+shortCallee(callee), s.Instr(), "the member a partition moves to is taken from the sorted list of participating members or was found in the working assignment",
+					"a partition can be moved to a member that was set aside as fixed (deleted from the working assignment): its entry is overwritten when the fixed assignments are written back and the partition ends up with no owner", path2)
 			}
-			g, path := reg.Guarded(s, Truth{incl, true})
-			c.Check(g, rule, fn, "sticky:reassign-eligible", s.Instr(), "a partition moves to another member only if that member is eligible for it", "reassignPartitionToNewConsumer can move a partition to a member that is not eligible for it", path)
 		}
+	}
+	if nMoves < 2 {
+		c.Unresolved(rule, "calls that move a partition to another member (reassignPartition / processPartitionMovement)")
 	}
 	// 4. sticky Plan: prior ownership
 	if fn := c.NeedFn(rule, "stickyBalanceStrategy.Plan"); fn != nil {
@@ -237,4 +295,11 @@ func c08Rules(c *Ctx) {
 		})
 		c.Check(okCall, rule, fn, "range:own-partitions", nil, "each topic is planned over its own partition list topics[topic]", "a topic is planned over another topic's partition list: nonexistent partitions appear in the plan", nil)
 	}
+}
+
+func shortCallee(n string) string {
+	if i := strings.LastIndex(n, "."); i >= 0 {
+		return n[i+1:]
+	}
+	return n
 }
